@@ -562,6 +562,11 @@ impl<'this> InternalOptimisingLineFormatter<'this, '_> {
 
         'node_heap: while let Some(mut node) = node_heap.pop() {
             if iteration_count > self.settings.iteration_max {
+                #[cfg(feature = "verif-hooks")]
+                crate::defaults::parser::verif_events::ev(&format!(
+                    "\nWS {} limit {}",
+                    line.0, iteration_count
+                ));
                 return Err(FormattingSolutionError::IterationLimitReached);
             }
             iteration_count += 1;
@@ -570,6 +575,14 @@ impl<'this> InternalOptimisingLineFormatter<'this, '_> {
             if node.next_line_index as usize >= line.1.get_tokens().len() {
                 let solution = node.into();
                 self.solution_debugging(line, &node_heap, iteration_count, &solution);
+                #[cfg(feature = "verif-hooks")]
+                {
+                    let found: &FormattingSolution = &solution;
+                    crate::defaults::parser::verif_events::ev(&format!(
+                        "\nWS {} ok {} {} {}",
+                        line.0, found.penalty, iteration_count, found.solution_length
+                    ));
+                }
                 return Ok(solution);
             }
             if node.penalty > best_penalties[(node.next_line_index - 1) as usize] {
@@ -790,6 +803,11 @@ impl<'this> InternalOptimisingLineFormatter<'this, '_> {
                 }
             }
         }
+        #[cfg(feature = "verif-hooks")]
+        crate::defaults::parser::verif_events::ev(&format!(
+            "\nWS {} none {}",
+            line.0, iteration_count
+        ));
         Err(FormattingSolutionError::NoSolutionFound)
     }
 
